@@ -29,7 +29,7 @@ def queries(tier, seed, build):
     full = build.sub("full")
     names = ["descrypt", "bigcrypt", "bsdicrypt", "sunmd5", "bcrypt", "scrypt"]
     if tier == "thorough":
-        names += ["sunmd5-comma", "sunmd5-rounds", "sha256crypt-rounds", "sha512crypt-rounds", "sha1crypt", "yescrypt", "bcrypt_a", "bcrypt_x", "bcrypt_y"]
+        names += ["sunmd5-comma", "sunmd5-rounds", "sha256crypt-rounds", "sha512crypt-rounds", "yescrypt", "bcrypt_a", "bcrypt_x", "bcrypt_y"]
     from .methods import BY_NAME
     for n in names:
         q = method_query(BY_NAME[n], "c05-" + n, timeout=900 if tier == "quick" else 3000)
